@@ -1278,6 +1278,13 @@ func (rw *rewriter) hbAccesses(st ast.Stmt) (reads, writes []hbAcc) {
 					} else {
 						add(&reads, n.Args[0], "map")
 					}
+				} else {
+					// a designated map handed to a function is read by it
+					for _, a := range n.Args {
+						if isDesignatedMap(a) && simpleExpr(a) {
+							add(&reads, a, "map-arg")
+						}
+					}
 				}
 			}
 			return true
